@@ -76,6 +76,7 @@ void bufferctrl::wait_ready()
   std::unique_lock<std::mutex> locker(lock);
   while (state != READY && state != INV)
     cv_ready.wait(locker);
+  WENCRY_VERIF_EV(16, -1, state);
   locker.unlock();
 }
 /*
@@ -86,6 +87,7 @@ void bufferctrl::wait_update()
   std::unique_lock<std::mutex> locker(lock);
   while (state != UPDATING && state != EMPTY)
     cv_update.wait(locker);
+  WENCRY_VERIF_EV(17, -1, state);
   locker.unlock();
 }
 /*
@@ -103,6 +105,7 @@ void bufferctrl::set_ready(bool load)
     live_num--;
   }
   cv_ready.notify_all();
+  WENCRY_VERIF_EV(15, -1, state);
   locker.unlock();
 }
 /*
@@ -116,6 +119,7 @@ void bufferctrl::set_update()
     state = UPDATING;
     cv_update.notify_all();
   }
+  WENCRY_VERIF_EV(18, -1, state);
   locker.unlock();
 }
 /*################################
@@ -167,11 +171,14 @@ return:迭代是否成功
 */
 bool buffergroup::turn_iter()
 {
+  WENCRY_VERIF_YIELD(8, turn);
+  WENCRY_VERIF_EV(8, turn, bufferctrl::haslive());
   if (!bufferctrl::haslive())
     return false;
   do
     turn = (turn + 1) % size;
   while (ctrl[turn].cmpstate(INV));
+  WENCRY_VERIF_EV(9, turn, 0);
   return true;
 };
 /*
@@ -181,13 +188,17 @@ return:表项地址，若缓冲区已经读取完毕返回NULL
 */
 u8_t *buffergroup::require_buffer_entry(const u8_t id)
 {
+  WENCRY_VERIF_YIELD(1, id);
   u8_t *result = buflst[id].get_entry();
+  WENCRY_VERIF_EV(1, id, result != NULL);
   if (result == NULL)
   {
     ctrl[id].set_update();
     ctrl[id].wait_ready();
+    WENCRY_VERIF_YIELD(2, id);
     if (ctrl[id].cmpstate(READY))
       result = buflst[id].get_entry();
+    WENCRY_VERIF_EV(2, id, result != NULL);
   }
   return result;
 }
@@ -198,13 +209,21 @@ printload:过程打印函数
 void buffergroup::buffer_update(const std::function<void(std::string, size_t)> &printload)
 {
   loadstate_t loadstate = NODATA;
+  WENCRY_VERIF_YIELD(3, turn);
+  WENCRY_VERIF_EV(3, turn, ctrl[turn].cmpstate(UPDATING));
   if (ctrl[turn].cmpstate(UPDATING))
   {
+    WENCRY_VERIF_EV(4, turn, 0);
+    WENCRY_VERIF_YIELD(4, turn);
     buflst[turn].export_buffer(fout, ispadding);
+    WENCRY_VERIF_EV(5, turn, 0);
     printload("Tid " + std::to_string(turn), buflst[turn].get_size());
   }
+  WENCRY_VERIF_EV(6, turn, over);
+  WENCRY_VERIF_YIELD(6, turn);
   if (!over)
     loadstate = buflst[turn].load_buffer(fin, ispadding);
+  WENCRY_VERIF_EV(7, turn, loadstate);
   over = loadstate != FULL;
   ctrl[turn].set_ready(loadstate != NODATA);
 }
